@@ -103,7 +103,7 @@ type vwStats struct {
 	needFrom, repairsDone, trailingDelivered, replaceCalls            atomic.Int64
 	crashAtReplace, crossNodeDeposedAck, retryRefusedHigherAuthority  atomic.Int64
 	committedPairsCompared, chainEntriesVerified                      atomic.Int64
-	commitBackpressured, commitUnavailable, conflictGarbageRow       atomic.Int64
+	commitBackpressured, commitUnavailable, conflictGarbageRow        atomic.Int64
 }
 
 // vwBackendLease is an exclusive lease of three durable stores for one instance.
